@@ -304,6 +304,10 @@ func genC17(seed uint64, run int, tier string) *Case {
 				op.Tmpl, op.Src, op.COpts = "iif-call", "iif(true, o0())", fn("o0", "obs0")
 			}
 			op.Opts = randOpts(nil)
+		case x < 19 && r.p(0.25):
+			op.Tmpl, op.Src = "call-nested", "Patient.name.os(rs())"
+			op.COpts = []COpt{{Kind: "fn", Name: "os", Fn: "obsS"}, {Kind: "fn", Name: "rs", Fn: "obsRetS"}}
+			op.Opts = randOpts(nil)
 		case x < 19:
 			switch r.n(3) {
 			case 0:
